@@ -399,6 +399,20 @@ func runConc(f *vevid.Flags, rep *vevid.Report, r replay) {
 	cScratch = filepath.Join(f.Scratch, "conc")
 	_ = os.MkdirAll(cScratch, 0o755)
 	defer os.RemoveAll(cScratch)
+	if f.Replay != "" && r.Config == "regroup" {
+		fails := 0
+		for i := 0; i < 5; i++ {
+			before := rep.ViolationCount
+			x := vsched.Run(r.Choices, 200000, rgBody)
+			rgFinish(rep, x)
+			if rep.ViolationCount > before {
+				fails++
+			}
+			rep.Evaluations++
+		}
+		rep.Extra["replay_failures_of_5"] = fails
+		return
+	}
 	if f.Replay != "" {
 		var sc *cscenario
 		for i := range cscenarios {
@@ -431,6 +445,9 @@ func runConc(f *vevid.Flags, rep *vevid.Report, r replay) {
 	}
 	rep.Bounds["preemption_bound_per_scenario(-1=every schedule)"] = bounds
 	rep.Rule = "scenarios on ONE consumer group of a real FanOutQueue (rewritten pkg/queue, pkg/queue/page: every lock / atomic / condition operation is a scheduling point): consumer thread (1-2 Consume) vs acker thread (1-2 Ack: in range / above consumed / below ack), optionally a third thread (Sync, Sync+GC, second consumer + appender); per scenario every schedule, or every schedule within the stated preemption bound; per-instant invariants before and after every call, consecutive hand-out, linearizability of the call/return history against the sequential model by brute force, read-back of (queue ack, appended], close/reopen. distinct_nontrivial = schedules with >=1 scheduling decision (all distinct by construction)"
+	if v := os.Getenv("C06_SCEN"); v == "" || v == "regroup" {
+		runRegroup(f, rep) // small (hundreds of schedules): first, so that a deadline reached later cannot skip it
+	}
 	for si, sc := range cscenarios {
 		sc := sc
 		bound := bounds[sc.Name]
